@@ -70,6 +70,18 @@ def setFeat (idx : Nat) (v : V) (ob : HObs V) : Except Err (HObs V) :=
 def delFeat (idx : Nat) (ob : HObs V) : Except Err (HObs V) :=
   if idx < ob.feats.length then .ok { ob with feats := ob.feats.eraseIdx idx } else .error .index
 
+/-- `features.append(val_init[i])` (IndexError when the list has no element `i`) -/
+def pushNth (l : List V) (i : Nat) (ob : HObs V) : Except Err (HObs V) :=
+  match l[i]? with
+  | some v => .ok (pushFeat v ob)
+  | none => .error .index
+
+/-- `features[idx] = new_val[i]` (IndexError when the list has no element `i` or there is no such slot) -/
+def setNth (idx : Nat) (l : List V) (i : Nat) (ob : HObs V) : Except Err (HObs V) :=
+  match l[i]? with
+  | some v => setFeat idx v ob
+  | none => .error .index
+
 /-- createAnalyticalFeature(name, val_init) -/
 def createW (name : String) (init : Init V) : M (Wd V) Unit := fun w =>
   if reserved name then (.error .reserved, w)
@@ -84,9 +96,7 @@ def createW (name : String) (init : Init V) : M (Wd V) Unit := fun w =>
     | .list l =>
       if l.length < w.ids.length then (.error .index, w)      -- fix 2976f2b: refused before the name is registered
       else
-        let r := forObs (fun i ob => match l[i]? with
-          | some v => .ok (pushFeat v ob)
-          | none => .error .index) 0 w.ids w.heap
+        let r := forObs (pushNth l) 0 w.ids w.heap
         (r.1, { w with dico := dico', heap := r.2 })
 
 /-- updateAnalyticalFeature(name, new_val) -/
@@ -98,9 +108,7 @@ def updateW (name : String) (init : Init V) : M (Wd V) Unit := fun w =>
     | some idx =>
       let r := match init with
         | .scalar v => forObs (fun _ ob => setFeat idx v ob) 0 w.ids w.heap
-        | .list l => forObs (fun i ob => match l[i]? with
-          | some v => setFeat idx v ob
-          | none => .error .index) 0 w.ids w.heap
+        | .list l => forObs (setNth idx l) 0 w.ids w.heap
       (r.1, { w with heap := r.2 })
 
 /-- removeAnalyticalFeature(name): `del features[idAF]` at every position, THEN the dict is updated (an exception in the
